@@ -65,6 +65,8 @@ def features(schema_name):
         "unk_generate": ({"unknown_crates": "generate"}, ["--unknown-crates", "generate"], "unknown_crates = Generate"),
         "crate_ver": ({"crates": {"ext-crate": {"version": "1.2.5"}}}, ["--crate", "ext-crate@1.2.5"], 'crates = { "ext-crate" = "1.2.5" }'),
         "crate_ver_bad": ({"crates": {"ext-crate": {"version": "2.0.0"}}}, ["--crate", "ext-crate@2.0.0"], 'crates = { "ext-crate" = "2.0.0" }'),
+        "crate_pre": ({"crates": {"ext-crate": {"version": "1.3.0-rc.1"}}}, ["--crate", "ext-crate@1.3.0-rc.1"], 'crates = { "ext-crate" = "1.3.0-rc.1" }'),
+        "crate_build": ({"crates": {"ext-crate": {"version": "1.2.5+build.7"}}}, ["--crate", "ext-crate@1.2.5+build.7"], 'crates = { "ext-crate" = "1.2.5+build.7" }'),
         "crate_any": ({"crates": {"ext-crate": {"version": "*"}}}, ["--crate", "ext-crate@*"], 'crates = { "ext-crate" = "*" }'),
         "crate_never": ({"crates": {"ext-crate": {"version": "!"}}}, ["--crate", "ext-crate@!"], 'crates = { "ext-crate" = "!" }'),
         "crate_rename": ({"crates": {"ext-crate": {"version": "1.2.5", "rename": "my-ext"}}}, ["--crate", "my-ext=ext-crate@1.2.5"], 'crates = { "my-ext" = "ext-crate@1.2.5" }'),
